@@ -205,6 +205,10 @@ def check_case(ctx, g, rng, model=None, limit=5.0, shuffle=True, prunes=(True, F
 def run(ctx, model=None):
     ctx.extra["rule"] = RULE
     rng = random.Random(ctx.seed * 86028121 + 13)
+    import analysis as _r5
+    _r5rng = random.Random(ctx.seed + 555)
+    _r5.odd_label_invariance(ctx, [gen.stopping_game(_r5rng, extra_finals=0.25) for _ in range(6 if ctx.quick() else 80)] +
+                             [gen.layered_tie_game(_r5rng) for _ in range(3)], "renaming-unchanged-by-odd-action-names", _r5rng)
     from boards import board_games
     for kind in (PR, P1):
         for pat in gen.all_patterns(4 if ctx.quick() else 5):
@@ -261,6 +265,9 @@ def known_findings(ctx):
 
 
 def replay(ctx, viol):
+    import analysis as _r5
+    if _r5.replay_round5(ctx, viol):
+        return
     g = viol["input"]["game"]
     g["transition_list"] = [[tuple(t) for t in row] for row in g["transition_list"]]
     h = viol["input"]["transformed"]
